@@ -8,11 +8,16 @@
 package main
 
 import (
+	"bytes"
+	"flag"
 	"fmt"
 	"math"
+	"sync/atomic"
+	"time"
 
 	v1 "k8s.io/api/core/v1"
 	"k8s.io/apimachinery/pkg/api/resource"
+	"k8s.io/klog/v2"
 	metav1 "k8s.io/apimachinery/pkg/apis/meta/v1"
 
 	"verif/harness/internal/vh"
@@ -199,6 +204,7 @@ type qrec struct {
 	over                                 bool
 }
 type result struct {
+	rounds int64 // rounds of the proportion loop (0 for capacity)
 	tg *api.Resource
 	qs []qrec
 }
@@ -217,7 +223,73 @@ func parentOf(k int) string {
 	}
 }
 
+// ---------- rounds of the real loop, and a watchdog ----------
+// proportion.go logs "Remaining resource is" at V(4) once per round, just before the exit test:
+// counting those lines measures the rounds of the REAL loop without touching it.
+var roundLines atomic.Int64
+var roundMarker = []byte("Remaining resource is")
+
+type roundCounter struct{}
+
+func (roundCounter) Write(p []byte) (int, error) {
+	if bytes.Contains(p, roundMarker) {
+		roundLines.Add(1)
+	}
+	return len(p), nil
+}
+
+var klogFlags = func() *flag.FlagSet {
+	fs := flag.NewFlagSet("klog-c12", flag.ContinueOnError)
+	klog.InitFlags(fs)
+	return fs
+}()
+
+const sessionTimeout = 20 * time.Second
+
+var hung atomic.Int64
+
+// runOnce opens the session in its own goroutine and gives up after sessionTimeout: a loop that
+// no longer terminates is reported as a violation of this case, it never hangs the check.
 func runOnce(x *input, plugin string) result {
+	count := plugin == "proportion"
+	if count {
+		klog.SetOutput(roundCounter{})
+		klogFlags.Set("v", "4")
+	}
+	before := roundLines.Load()
+	type outcome struct {
+		r   result
+		err any
+	}
+	ch := make(chan outcome, 1)
+	go func() {
+		defer func() {
+			if e := recover(); e != nil {
+				ch <- outcome{err: e}
+			}
+		}()
+		ch <- outcome{r: runOnceRaw(x, plugin)}
+	}()
+	var o outcome
+	select {
+	case o = <-ch:
+	case <-time.After(sessionTimeout):
+		hung.Add(1)
+		klogFlags.Set("v", "0")
+		panic(fmt.Sprintf("OnSessionOpen of %s did not finish within %v (%d rounds of the fair-share loop so far): the loop does not terminate",
+			plugin, sessionTimeout, roundLines.Load()-before))
+	}
+	if count {
+		klogFlags.Set("v", "0")
+	}
+	if o.err != nil {
+		panic(o.err)
+	}
+	o.r.rounds = roundLines.Load() - before
+	return o.r
+}
+
+func runOnceRaw(x *input, plugin string) result {
 	hier := plugin == "capacity-hier"
 	if hier {
 		plugin = "capacity"
@@ -451,6 +523,11 @@ func sameExact(a, b result, D int) bool {
 
 func run(sel int, in []int64) []int64 {
 	last.x = nil
+	if hung.Load() >= 2 {
+		// two sessions of this process already spin in the background: the remaining cases are not
+		// run (reported as unanswered, the two timeouts are the violations)
+		return []int64{}
+	}
 	x, ok := decode(in)
 	if !ok {
 		return badInput
@@ -584,6 +661,24 @@ func hierLawInput(x *input, r result, p int) ([]int64, bool) {
 	return out, n > 0
 }
 
+// law 107 input: dimensions, weights of the queues with jobs, largest amount in play, rounds
+func roundsInput(x *input, r result) []int64 {
+	ws := []int64{}
+	for k, q := range r.qs {
+		if q.present {
+			ws = append(ws, x.qs[k].w)
+		}
+	}
+	var big int64 = 1
+	for _, c := range x.total {
+		if c.ok && c.v > big {
+			big = c.v
+		}
+	}
+	out := []int64{int64(x.D), big, r.rounds, int64(len(ws))}
+	return append(out, ws...)
+}
+
 func lawInput(x *input, r result, capacityMode bool) []int64 {
 	out := []int64{int64(x.D)}
 	out = append(out, encCellsScaled(x.total)...)
@@ -649,6 +744,7 @@ func laws(sel int, in, got []int64, law func(lsel int, lin []int64, sig string))
 		law(102, li, "")
 		law(103, li, "")
 		law(105, li, "")
+		law(107, roundsInput(x, r), "")
 		if i == 0 {
 			law(104, li, "")
 		}
@@ -838,6 +934,9 @@ func desc(x *input) any {
 func generate(rng *vh.Rng, n int, emit func(id string, sel int, in []int64, kind string, nontrivial bool, desc any)) {
 	g := gen{rng}
 	for i := 0; i < n; i++ {
+		if hung.Load() >= 2 {
+			return
+		}
 		D := g.r.Range(3, maxD)
 		kind := "proportion/random"
 		var x *input
@@ -879,6 +978,37 @@ func generate(rng *vh.Rng, n int, emit func(id string, sel int, in []int64, kind
 			x.qs = append(x.qs, a, b)
 			if g.r.Chance(1, 2) {
 				x.qs = append(x.qs, g.queue(D, x.total))
+			}
+		case 5: // ring: queue k may grow only in "its" dimension and wastes its share everywhere else,
+			// so every dimension decays geometrically and the loop runs for many rounds
+			kind = "proportion/ring"
+			x = &input{D: D, total: g.total(D, false)}
+			dimsOf := []int{0, 1}
+			for j := 3; j < D; j++ {
+				if x.total[j].ok && x.total[j].v > 0 {
+					dimsOf = append(dimsOf, j)
+				}
+			}
+			nq := g.r.Range(2, len(dimsOf))
+			for k := 0; k < nq; k++ {
+				q := g.queue(D, x.total)
+				q.hasJobs, q.hasCap, q.state = true, true, 0
+				q.gua = none(D)
+				if g.r.Chance(1, 2) {
+					q.w = 1
+				}
+				big := g.task(D, x.total)
+				big.kind = 0
+				for _, j := range dimsOf {
+					big.cells[j] = cell{true, x.total[j].v*2 + 1000}
+					if j == dimsOf[k] {
+						q.cap[j] = cell{}
+					} else {
+						q.cap[j] = cell{true, g.part(x.total, j, 1, int64(8*nq)) + 1}
+					}
+				}
+				q.tasks = []taskIn{big}
+				x.qs = append(x.qs, q)
 			}
 		case 3: // a queue that is not Open but still carries a guarantee (with or without jobs,
 			// possibly only Pending PodGroups) next to open queues: its guarantee stays reserved
